@@ -63,6 +63,20 @@ CheckFunding(e, post) ==
         THEN (IF e.q \in DOMAIN e.post.aggs /\ \E a \in Range(e.post.aggs[e.q]) : a.ts = e.facts.aggts /\ a.flag THEN {} ELSE {name("DeterminedAggregateIsFlagged")})
         ELSE {})
 
+\* A funding message is never answered with a crash: the slash has to be able to follow the stake wherever it went (a
+\* delegation, one or SEVERAL unbonding entries, a redelegation).  The one panic an open finding explains: with F-15 the
+\* shares of all entries but the last can add up to more than the slash, the last entry's "remainder" is then negative
+\* (identity: the sum of the other entries' deviating shares, within one unit each, exceeds the slash).
+NegativeLastShare(e) ==
+  LET snap == e.facts.snap
+      n == Len(snap.origins)
+      slash == SlashAmount(e.cat, e.rpower)
+  IN n > 0 /\ slash \prec (NSum([j \in 1 .. n - 1 |-> DevQ(slash, snap, e.rpower ** E6, j)], 1 .. n - 1) ++ N(n))
+CheckPanic(e) ==
+  IF "panic" \notin DOMAIN e THEN {}
+  ELSE IF e.panickind = "negative-coin" /\ "facts" \in DOMAIN e /\ e.facts.hassnap /\ Dev_F15(e) /\ NegativeLastShare(e) THEN {"KNOWN:F-15"}
+  ELSE {"FundingMessageNeverPanics"}
+
 CheckBegin(e, post) ==
   \* expiry: a prevote dispute fails only after its one-day deadline, and failing moves no stake
   (IF \A d \in Range(post) : (Has(disp, d.id) /\ ById(disp, d.id).status = PREVOTE /\ d.status = FAILED) => (d.endn \prec e.tn /\ ~HasEscrow(d) /\ d.endn = d.startn ++ DayNs)
@@ -80,6 +94,7 @@ Check(e) ==
   JailTermKept(e) \cup
   LET post == e.post.dispute.disputes IN
   IF e.ev \in {"ProposeDispute", "AddFeeToDispute"} /\ e.ok /\ Range(post) # {} /\ FundedNow(e, post) THEN CheckFunding(e, post)
+  ELSE IF e.ev \in {"ProposeDispute", "AddFeeToDispute"} /\ ~e.ok THEN CheckPanic(e)
   ELSE IF e.ev = "BeginBlock" /\ e.ok THEN CheckBegin(e, post)
   ELSE \* no other operation escrows stake for a dispute
        (IF \A d \in Range(post) : HasEscrow(d) => (\E p \in Range(disp) : p.hash = d.hash /\ HasEscrow(p)) THEN {} ELSE {"StakeEscrowedOnlyWhenADisputeBecomesFullyFunded_" \o e.ev})
